@@ -91,7 +91,8 @@ def parseBody (s : String) : Option BodySpec :=
 
 /-- the client's handshake output: preface, SETTINGS, WINDOW_UPDATE, SETTINGS ack -/
 def handshakeOut : String :=
-  s!"PRI;S0:{Gen.c_MaxWindowSize}={Gen.c_clientMaxWindow};W0:{Gen.c_clientMaxWindow - Gen.c_defaultWindowSize};A0"
+  let st := ",".intercalate (handshakeSettings.map fun (k, v) => s!"{k}={v}")
+  s!"PRI;S0:{st};W0:{Gen.c_clientMaxWindow - Gen.c_defaultWindowSize};A0"
 
 /-- `doHandshake` on the server's first frame -/
 def handshake (first : Bytes) : Option Conn :=
